@@ -3082,7 +3082,10 @@ var wakeExceptions = map[string]string{
 	"ReceiveStream.finalOffset@handleStreamFrameImpl":      "set from a FIN frame; the same call then queues the frame and signals (Push → signalRead); the paths without a signal are the error return and the locally-cancelled stream, whose reader already returned",
 	"ReceiveStream.finalOffset@handleResetStreamFrameImpl": "the reset path signals when it records the remote cancellation; duplicate resets and resets after a local CancelRead change nothing a blocked Read waits for",
 	"ReceiveStream.reliableSize@handleResetStreamFrameImpl": "the only path from this store to a return without signalRead is the locally cancelled stream (no reader is left); the lowered-reliable-size path, which used to return unsignalled, was a genuine lost wake-up: repaired in 261dc1b and decided by C03.8",
-	"ReceiveStream.cancelledLocally@cancelReadImpl":        "cancelReadImpl signals on the path that queues STOP_SENDING; the early returns are the cases where the error was already read or the peer reset the stream (Read is not blocked any more)",
+	// (ReceiveStream.cancelledLocally@cancelReadImpl used to be listed here with the reason "the early returns are the
+	// cases where … the peer reset the stream (Read is not blocked any more)". That is wrong with RESET_STREAM_AT: a reader
+	// can still wait for the reliable part. The exception froze a genuine lost wake-up, found by the second audit of C03
+	// (findings/audit/C03-r2-1) and repaired; the obligation is decided by the rule again.)
 	"SendStream.finishedWriting@Close":                     "documented contract: Close must not be called concurrently with Write, so no Write is blocked",
 	"SendStream.nextFrame@popNewStreamFrame":               "signals exactly when the buffered frame was popped completely (then a blocked Write may buffer again); a partially popped frame leaves a remainder and the packer is called again (onHasStreamData), which pops it and signals",
 	"SendStream.dataForWriting@getDataForWriting":          "signals when all data was taken or when the remainder became bufferable (canBufferStreamFrame); otherwise the writer's condition is still false and the packer will be back (hasMoreData)",
@@ -5721,4 +5724,117 @@ func c18KnownFrameTypesAreNotSkipped(c *Ctx) {
 		return true
 	})
 	c.Floor(R, "frame-type cases in ParseNext", n, 6)
+}
+
+// C07.10: packets that were buffered until their keys arrived are acknowledged like any others: in Conn.run, every path
+// from the place the buffered packets were processed back to the blocking select passes triggerSending or arms an
+// immediate send (pacingDeadline = deadlineSendImmediately). The `continue` that follows their processing used to go
+// straight back to waiting: Initial / Handshake trackers have no ACK alarm, and the second ack-eliciting 1-RTT packet
+// cancels it (ackQueued), so nothing sent the ACK (or the CRYPTO data those packets produced) until a PTO.
+func c07BufferedPacketsTriggerSending(c *Ctx) {
+	const R = "C07.10"
+	f := c.fn("", "Conn", "run")
+	hop := c.obj("", "Conn", "handleOnePacket")
+	ts := c.obj("", "Conn", "triggerSending")
+	pd := c.fld("", "Conn", "pacingDeadline")
+	dsi, err := c.P.Object("", "deadlineSendImmediately")
+	if err != nil {
+		panic(anchorErr{err})
+	}
+	arms := func(in ssa.Instruction) bool {
+		if CallsTo(ts)(in) {
+			return true
+		}
+		st, ok := in.(*ssa.Store)
+		if !ok || fieldOfAddress(st.Addr) != pd {
+			return false
+		}
+		u, ok := st.Val.(*ssa.UnOp)
+		if !ok || u.Op != token.MUL {
+			return false
+		}
+		g, ok := u.X.(*ssa.Global)
+		return ok && g.Object() == dsi
+	}
+	waits := func(in ssa.Instruction) bool { s, ok := in.(*ssa.Select); return ok && s.Blocking }
+	// the processing of buffered packets: the handleOnePacket call inside the loop over the queue (not the one in handlePackets)
+	n := countInstr(f, func(in ssa.Instruction) bool { return CallsTo(hop)(in) && in.Parent() == f })
+	c.Floor(R, "buffered packets processed in run", n, 1)
+	// paths start where the loop has established that at least one buffered packet was processed: the true edge of the
+	// boolean φ that collects handleOnePacket's "processed" results
+	var starts []*ssa.BasicBlock
+	for _, b := range f.Blocks {
+		ifi, ok := b.Instrs[len(b.Instrs)-1].(*ssa.If)
+		if !ok {
+			continue
+		}
+		ph, ok := ifi.Cond.(*ssa.Phi)
+		if !ok {
+			continue
+		}
+		fromProcessed := false
+		for _, e := range ph.Edges {
+			if isConstBool(e, true) {
+				fromProcessed = true
+			}
+		}
+		// the φ lives in the loop over the queue: its block must be reachable from the handleOnePacket call
+		reach := false
+		eachInstr(f, func(in ssa.Instruction) {
+			if CallsTo(hop)(in) && in.Parent() == f && instrReaches(in, ifi) {
+				reach = true
+			}
+		})
+		if fromProcessed && reach && ph.Comment == "processedUndecryptablePacket" || (fromProcessed && reach && len(starts) == 0 && token.IsIdentifier(ph.Comment) && strings.Contains(strings.ToLower(ph.Comment), "processed")) {
+			starts = append(starts, b.Succs[0])
+		}
+	}
+	if !c.Check(len(starts) > 0, R, "anchor:run tests whether a buffered packet was processed", "-", "boolean collected from handleOnePacket's results") {
+		return
+	}
+	c.cut(R, "ack:after buffered packets were processed the run loop sends before it waits again", &Cut{Fn: f, NoInline: true,
+		StartBlocks: starts, Target: waits, Barrier: arms},
+		"the ACK for buffered Initial / Handshake packets is due immediately and for 1-RTT packets within max_ack_delay; no timer covers it when the connection is congestion limited")
+}
+
+// C07.11: an ACK-only datagram covers every packet number space that has an ACK queued: in PackCoalescedPacket (both
+// packers) the next space is consulted in ack-only mode whether or not an earlier space already contributed — a
+// condition `onlyAck && size == 0` packs the ACK of exactly one space per wake-up, and the others have no timer.
+func c07AckOnlyCoversAllSpaces(c *Ctx) {
+	const R = "C07.11"
+	n := 0
+	for _, recv := range []string{"packetPacker", "uPacketPacker"} {
+		obj := c.obj("", recv, "PackCoalescedPacket")
+		fd, _ := c.P.FuncDecl(obj)
+		if fd == nil {
+			c.Bad(R, "anchor:"+recv+".PackCoalescedPacket", "-", "no declaration")
+			continue
+		}
+		k := 0
+		ast.Inspect(fd.Body, func(nd ast.Node) bool {
+			be, ok := nd.(*ast.BinaryExpr)
+			if !ok || be.Op != token.LAND {
+				return true
+			}
+			id, ok := be.X.(*ast.Ident)
+			if !ok || id.Name != "onlyAck" {
+				return true
+			}
+			cmp, ok := be.Y.(*ast.BinaryExpr)
+			if !ok || cmp.Op != token.EQL {
+				return true
+			}
+			if x, ok := cmp.X.(*ast.Ident); ok && x.Name == "size" {
+				k++
+				n++
+				c.Bad(R, fmt.Sprintf("allspaces:%s.PackCoalescedPacket consults the next space in ack-only mode regardless of what is packed already#%d", recv, k), c.P.Pos(be.Pos()),
+					"`onlyAck && size == 0`: once one space contributed its ACK the other spaces are skipped; the caller sends a single ack-only packet per wake-up")
+			}
+			return true
+		})
+		if k == 0 {
+			c.OK(R, "allspaces:"+recv+".PackCoalescedPacket consults the next space in ack-only mode regardless of what is packed already", c.P.Pos(fd.Pos()), "no `onlyAck && size == 0` condition")
+		}
+	}
+	_ = n
 }
